@@ -27,14 +27,22 @@ def _vals(rng):
 class World:
     """Harness-side state of one run: folders, current sources, options, label."""
 
-    def __init__(self, sandbox, clock, name, vals_seed):
+    def __init__(self, sandbox, clock, name, vals_seed, symlink_sub=None):
         self.sandbox = sandbox
         self.clock = clock
         self.name = name
         self.mdir = os.path.join(sandbox, "m")
         self.ldir = os.path.join(sandbox, "lib")
         os.makedirs(self.mdir)
-        os.makedirs(os.path.join(self.ldir, "sub"))
+        if symlink_sub is None:
+            symlink_sub = vals_seed % 2 == 1
+        if symlink_sub:
+            # the library's sub-directory is a link to a folder elsewhere (a shared library linked in)
+            os.makedirs(self.ldir)
+            os.makedirs(os.path.join(sandbox, "shared_sub"))
+            os.symlink(os.path.join(sandbox, "shared_sub"), os.path.join(self.ldir, "sub"))
+        else:
+            os.makedirs(os.path.join(self.ldir, "sub"))
         self.ent = cp.POOL[name]
         rng = random.Random(vals_seed)
         self.files = {}  # key "model:Tank.mo" -> (vals, extra)
